@@ -816,7 +816,26 @@ pub fn gen_for(suite: &str, tier: &str, rng: &mut Rng, emit: &mut dyn FnMut(Stri
                 let mut e = gen_expr::expr(rng, &c);
                 if !e.contains('"') {
                     // comments on a random subset of rules
-                    e = e.split("; ").map(|r| if rng.chance(1, 2) && !r.contains('"') { format!("{r} \"{}\"", rng.pick(&["a", "b", "c d", "a"])) } else { r.to_string() }).collect::<Vec<_>>().join("; ");
+                    // comments on a random subset of rules; a third of the commented rules carry TWO comments
+                    // (`"x":` in front and one behind), so that unions of lists of different lengths occur
+                    // (one operand with a run of two values above the other's last one, a shared value …)
+                    e = e
+                        .split("; ")
+                        .map(|r| {
+                            if rng.chance(1, 2) && !r.contains('"') {
+                                let c = *rng.pick(&["a", "b", "c d", "a", "m", "z"]);
+                                let starts_wide = r.starts_with(|ch: char| ch.is_ascii_digit()) || ["Jan", "Feb", "Mar", "Apr", "May", "Jun", "Jul", "Aug", "Sep", "Oct", "Nov", "Dec", "week", "easter", "24/7"].iter().any(|p| r.starts_with(p));
+                                if rng.chance(1, 3) && !starts_wide && !r.contains("||") && !r.contains(", ") {
+                                    format!("\"{}\":{r} \"{c}\"", rng.pick(&["b", "k", "y", "a"]))
+                                } else {
+                                    format!("{r} \"{c}\"")
+                                }
+                            } else {
+                                r.to_string()
+                            }
+                        })
+                        .collect::<Vec<_>>()
+                        .join("; ");
                 }
                 let ee = enc(&e);
                 let ctx = gen_ctx(rng, &e, false);
